@@ -220,21 +220,11 @@ fn judge<K: KeyT, V: ValT>(
         }
         // adopt
         slot.model = seen.iter().map(|&(kv, kid, vid, p)| (kv, MEntry { kid, vid, p })).collect();
-        if dst_unspecified == Some(mi) {
-            // contents are unspecified (the elements may be filed under the source's hasher):
-            // the caller's only sane continuation is to clear the destination
-            // (not even clear() normalises it: hashbrown 0.14.5's panic guard in
-            // clone_from_with_hasher returns early when its item count is still 0, leaving
-            // control bytes of already-cloned elements set). Replace the map; dropping the old
-            // one must be safe.
-            let h = w_cfg.map_hashers[mi].clone();
-            let old = std::mem::replace(&mut slot.m, new_map::<K, V>(&h, 0));
-            let r = call(|| sut(|| drop(old)));
-            if let Err(p) = r.result {
-                out.push(anomaly("fault-unusable", idx, op, format!("map {}: dropping the destination of an interrupted clone_from panicked: {:?}", mi, p)));
-            }
-            slot.model.clear();
-        }
+        // (The destination of an interrupted clone_from has unspecified *contents* - they were
+        // not judged above - but it stays in use: it must be as memory-safe and self-consistent
+        // as any other collection, so the model adopts what it holds and the rest of the
+        // schedule is checked exactly on it. An earlier version replaced it here and thereby
+        // hid defect D8.)
         let st = slot.m.verif_state();
         slot.countdown = if st.split && st.old_len > 0 { Some(((st.old_len + st.r - 1) / st.r.max(1)) as u64) } else { None };
     }
@@ -304,15 +294,6 @@ fn judge<K: KeyT, V: ValT>(
             }
         }
         slot.model = seen.iter().copied().collect();
-        if set_dst_unspecified == Some(si) {
-            let h = w_cfg.set_hashers[si].clone();
-            let old = std::mem::replace(&mut slot.s, new_set::<K>(&h, 0));
-            let r = call(|| sut(|| drop(old)));
-            if let Err(p) = r.result {
-                out.push(anomaly("fault-unusable", idx, op, format!("set {}: dropping the destination of an interrupted clone_from panicked: {:?}", si, p)));
-            }
-            slot.model.clear();
-        }
         let st = slot.s.verif_state();
         slot.countdown = if st.split && st.old_len > 0 { Some(((st.old_len + st.r - 1) / st.r.max(1)) as u64) } else { None };
     }
